@@ -82,8 +82,11 @@ def judge(run, cases, test, trace_module, prefixes, shards=4, env=None, sig_fn=N
                     sig.update(sig_fn(c, f))
                 run.violation(sig, "clause %s fails for case %s" % (p, json.dumps({k: v for k, v in c.items() if k not in ("allowed",)})[:900]))
     fold(run, results)
-    run.cov["records_judged"] = nrec
-    run.cov["failed_clauses"] = dict(cnt)
+    run.cov["records_judged"] = run.cov.get("records_judged", 0) + nrec
+    fc = dict(run.cov.get("failed_clauses", {}))
+    for k2, v2 in cnt.items():
+        fc[k2] = fc.get(k2, 0) + v2
+    run.cov["failed_clauses"] = fc
     return results
 
 
@@ -171,3 +174,99 @@ def c09(run):
     run.assumptions += ["a hanging peer never answers within the caller's 5 s (virtual) context",
                         "verification classes are realised by header content against the trusted head (adjacent/non-adjacent, bad signature, lower height)"]
     judge(run, cases, "TestHead", "ExchangeHeadTrace", ["C09_"], shards=8)
+
+
+BYZ = ["prefix", "prefixStall", "notfound", "empty", "shifted", "dup", "reordered", "forged", "forgedFirst", "wrongchain", "invalid",
+       "malformed", "unknownStatus", "tooMany", "disconnect"]
+
+
+def exchange_design(run, combos, byz):
+    for (amount, chunk) in combos:
+        cfgname = "_gen_%s_ex.cfg" % run.pid
+        txt = "\n".join(["CONSTANTS From = 1", " Amount = %d" % amount, " Chunk = %d" % chunk, " Peers <- MCPeers3",
+                          " Catalogue <- %s" % ("MCByz" if byz else "MCBenign"), " Capable <- %s" % ("MCNone" if byz else "MCCap1"),
+                          " MaxFaults = 3", "SPECIFICATION %s" % ("Spec" if byz else "LiveSpec"),
+                          "INVARIANTS ResultExact RequestsInRange NoLossNoDup"] + ([] if byz else ["PROPERTIES EventuallyFull"]) +
+                         ["CHECK_DEADLOCK FALSE"]) + "\n"
+        open(os.path.join(vlib.SPEC, cfgname), "w").write(txt)
+        try:
+            res = vlib.tlc(run.pid, "mc_%d_%d" % (amount, chunk), "ExchangeMC", cfgname, workers=8, timeout=3000)
+        finally:
+            os.remove(os.path.join(vlib.SPEC, cfgname))
+        vlib.require_tlc_ok(res, "Exchange.tla amount=%d chunk=%d" % (amount, chunk))
+        run.add_tlc("Exchange.tla session model amount=%d chunk=%d %s" % (amount, chunk, "Byzantine catalogue, safety" if byz else "benign faults + capable peer, safety + liveness"), res)
+
+
+@register("C05")
+def c05(run):
+    quick = run.tier == "quick"
+    rnd = random.Random(vlib.seed())
+    exchange_design(run, [(5, 2), (4, 3)] if quick else [(5, 2), (4, 3), (6, 3), (7, 2)], True)
+    cases = []
+    # degenerate requests: to <= from+1 (and the wrapped value)
+    for to in (4, 3, 2, 0):
+        cases.append({"from": 3, "amount": 0, "chunk": 2, "to": to, "mode": "byz", "peers": [{"script": []}]})
+    combos = [(3, 2), (5, 2), (4, 3), (6, 3), (2, 4), (9, 4)]
+    for amount, chunk in combos:
+        for b1 in BYZ:                       # one misbehaviour on the first request, then honest
+            cases.append({"from": 1, "amount": amount, "chunk": chunk, "mode": "byz", "peers": [{"script": [b1]}]})
+            cases.append({"from": 1, "amount": amount, "chunk": chunk, "mode": "byz", "peers": [{"script": ["serve", b1]}]})
+            cases.append({"from": 2, "amount": amount, "chunk": chunk, "mode": "byz", "peers": [{"script": [b1]}, {"script": []}]})
+    n_rand = 150 if quick else 4000
+    for _ in range(n_rand):                  # seeded assignments: 1..3 peers, scripts of length <= 3 incl. retries
+        amount, chunk = rnd.choice(combos + [(12, 5), (20, 64)])
+        peers = [{"script": [rnd.choice(BYZ + ["serve", "serve"]) for _ in range(rnd.randint(0, 3))]} for _ in range(rnd.randint(1, 3))]
+        cases.append({"from": rnd.randint(1, 3), "amount": amount, "chunk": chunk, "mode": "byz", "peers": peers})
+    for i, c in enumerate(cases):
+        c["id"] = i
+        c["from_tlc"] = False
+    for c in cases[:1] + cases[6:8] + cases[-1:]:
+        run.sample(c)
+    run.cov["scenarios"] = len(cases)
+    run.cov["rule"] = ("GetRangeByHeight sessions against scripted peers: degenerate (from,to) pairs; every catalogue misbehaviour on the first / "
+                       "second request of a single peer and next to an honest peer for 6 (amount, chunk) pairs; seeded assignments of misbehaviours "
+                       "to 1..3 peers x up to 3 requests each; every session log is trace-validated against the session model (ExchangeTrace.tla); "
+                       "non-trivial = session with a misbehaviour or an error; distinct = distinct scenario")
+    run.assumptions += ["fabricated headers carry a bad signature (a peer cannot sign for the validators); validly signed forks are outside the catalogue",
+                        "timeouts are streams held beyond RequestTimeout (mocknet ignores deadlines)"]
+    judge(run, cases, "TestRange", "ExchangeTrace", ["C05_"], shards=8,
+          sig_fn=lambda c, f: {"degenerate": "to" in c, "first": (c.get("peers") or [{}])[0].get("script", [None])[:1]})
+
+
+@register("C18")
+def c18(run):
+    quick = run.tier == "quick"
+    rnd = random.Random(vlib.seed())
+    exchange_design(run, [(5, 2), (4, 3)] if quick else [(5, 2), (4, 3), (6, 3), (7, 2), (3, 1)], False)
+    cases = []
+    faults = [[], ["timeout"], ["disconnect"], ["notfound"], ["prefix"], ["prefixStall"]]
+    for chunk in (1, 2, 3, 4):
+        for amount in range(1, 3 * chunk + 1):
+            # one capable peer alone, and next to every kind of limited / faulty peer
+            cases.append({"from": 1, "amount": amount, "chunk": chunk, "mode": "honest", "peers": [{"script": []}]})
+            for avail in sorted({1, 2, 1 + amount // 2, amount}):
+                for f in faults:
+                    if quick and rnd.random() > 0.35:
+                        continue
+                    cases.append({"from": 1, "amount": amount, "chunk": chunk, "mode": "honest",
+                                  "peers": [{"script": f, "avail": avail}, {"script": []}]})
+    n_rand = 120 if quick else 6000
+    for _ in range(n_rand):
+        chunk = rnd.choice([1, 2, 3, 5, 8, 16, 64])
+        amount = rnd.randint(1, min(3 * chunk, 192))
+        peers = [{"script": rnd.choice(faults), "avail": 1 + rnd.randint(0, amount)} for _ in range(rnd.randint(0, 4))]
+        peers.insert(rnd.randint(0, len(peers)), {"script": []})
+        cases.append({"from": 1, "amount": amount, "chunk": chunk, "mode": "honest", "peers": peers})
+    for i, c in enumerate(cases):
+        c["id"] = i
+        c["from_tlc"] = False
+    for c in cases[:1] + cases[30:32] + cases[-1:]:
+        run.sample(c)
+    run.cov["scenarios"] = len(cases)
+    run.cov["rule"] = ("honest peers serving the canonical chain up to an availability prefix, benign faults (not-found, prefix, time-out once, "
+                       "disconnect) and at least one capable peer: every range length 1..3x chunk for chunk 1..4 with a second limited/faulty peer, "
+                       "plus seeded scenarios with chunk up to 64 and up to 5 peers; plus wire round-trips against a real ExchangeServer over a real Store; "
+                       "non-trivial = more than one sub-request or a fault; distinct = distinct scenario")
+    run.assumptions += ["honest peers are scripted handlers reproducing the server's answers for a store holding 1..avail; the real server is used for the wire round-trips"]
+    judge(run, cases, "TestRange", "ExchangeTrace", ["C18_", "C05_"], shards=8)
+    judge(run, [{"id": 0}], "TestWire", "ExchangeTrace", ["C18_"], shards=1)
